@@ -803,6 +803,11 @@ func (pc *pCtx) p2Release(s *pSite) {
 				} else if f := c.StaticCallee(); f != nil && pkgPathOf(f) == "time" && (f.Name() == "NewTimer" || f.Name() == "NewTicker" || f.Name() == "AfterFunc") {
 					kind = "timer"
 					what = f.Name()
+				} else if hf := subscribingHelper(c, s); hf != nil {
+					// a helper of the package that subscribes on the operator's behalf and returns the teardown of what it
+					// subscribed (zipAllInnerSubscriptions): its result is a subscription like any other
+					kind = "subscription"
+					what = "helper " + hf.Name()
 				} else {
 					continue
 				}
@@ -1725,4 +1730,38 @@ func helperSubscribes(callee *ssa.Function, depth int) (subscribes, inLoopSub bo
 		}
 	}
 	return
+}
+
+// subscribingHelper: the call is to a package-level helper of the operator's own package that subscribes observers
+// (directly or through further helpers) and returns one value - a teardown or a subscription - for what it subscribed.
+func subscribingHelper(c *ssa.CallCommon, s *pSite) *ssa.Function {
+	f := c.StaticCallee()
+	if f == nil {
+		return nil
+	}
+	if o := f.Origin(); o != nil {
+		f = o
+	}
+	if f.Blocks == nil || f.Parent() != nil || f.Signature.Recv() != nil || f.Pkg == nil || s.Subscribe.Pkg == nil || f.Pkg != s.Subscribe.Pkg {
+		return nil
+	}
+	res := f.Signature.Results()
+	if res.Len() != 1 {
+		return nil
+	}
+	rt := res.At(0).Type()
+	isTeardown := false
+	if sig, ok := rt.Underlying().(*types.Signature); ok && sig.Params().Len() == 0 && sig.Results().Len() == 0 {
+		isTeardown = true
+	}
+	if !isTeardown && !hasMethod(rt, "Unsubscribe") {
+		return nil
+	}
+	if observableCtors[f.Name()] || hasMethod(rt, "SubscribeWithContext") {
+		return nil
+	}
+	if subs, _ := helperSubscribes(f, 0); !subs {
+		return nil
+	}
+	return f
 }
